@@ -1,6 +1,8 @@
 package wmesh
 
 import (
+	"fmt"
+
 	"github.com/postalsys/muti-metroo/internal/crypto"
 	"github.com/postalsys/muti-metroo/internal/verifrt/simrt"
 )
@@ -33,6 +35,11 @@ func keyDerivationChecks() {
 		panic(err)
 	}
 	req := uint64(0x1000 + simrt.Choose(1<<16, "kd-request"))
+	if simrt.Chance(1, 2, "kd-request-wide") {
+		// identifiers are 64 bits wide on the wire: every bit of them has to matter
+		req = uint64(simrt.Choose(1<<30, "kd-request-hi"))<<34 | uint64(simrt.Choose(1<<30, "kd-request-lo"))
+	}
+	bit := uint(simrt.Choose(64, "kd-request-bit"))
 	base := crypto.DeriveSessionKey(sAB, req, pubA, pubB, true).Key()
 	if other := crypto.DeriveSessionKey(sBA, req, pubA, pubB, false).Key(); other != base {
 		simrt.Failf("ends-derived-different-keys", "initiator and responder derivation disagree on the same inputs", "request %d", req)
@@ -49,6 +56,7 @@ func keyDerivationChecks() {
 	}
 	vs := []variant{
 		{"request identifier", crypto.DeriveSessionKey(sAB, req+1, pubA, pubB, true).Key()},
+		{fmt.Sprintf("request identifier (bit %d)", bit), crypto.DeriveSessionKey(sAB, req^(1<<bit), pubA, pubB, true).Key()},
 		{"responder ephemeral key (other key)", crypto.DeriveSessionKey(sAB, req, pubA, pubC, true).Key()},
 		{"responder ephemeral key (same point, other encoding)", crypto.DeriveSessionKey(sAB, req, pubA, pubB2, true).Key()},
 		{"initiator ephemeral key (other key)", crypto.DeriveSessionKey(sAB, req, pubC, pubB, true).Key()},
